@@ -11,6 +11,7 @@ import (
 	"crypto/sha256"
 	"fmt"
 	"os"
+	"syscall"
 	"testing"
 	"time"
 
@@ -73,6 +74,10 @@ func genPlan(t *rapid.T, tier string) any {
 	nc := rapid.IntRange(1, 3).Draw(t, "ncontents")
 	for i := 0; i < nc; i++ {
 		p.Sizes = append(p.Sizes, rapid.SampledFrom([]int{0, 1, 2, 100, 5000, 40000, 70000}).Draw(t, "size"))
+	}
+	if rapid.IntRange(0, 11).Draw(t, "huge") == 0 {
+		// now and then one output of several hundred kilobytes (many copy-buffer loads)
+		p.Sizes[rapid.IntRange(0, nc-1).Draw(t, "hugeidx")] = rapid.SampledFrom([]int{300000, 800000, 1100000}).Draw(t, "hugesize")
 	}
 	np := rapid.IntRange(0, 3).Draw(t, "npre")
 	for i := 0; i < np; i++ {
@@ -144,7 +149,6 @@ type env struct {
 	readable []bool // id was readable exactly (GetBytes) just before the target Put
 	proc     int
 	lastProc int // the simulated process of the latest target Put
-	twoFaults bool // the attempt being verified combined a file-operation fault with a changed source
 }
 
 // verifyAll applies the safety clauses of the statement to every id.
@@ -176,12 +180,6 @@ func (e *env) verifyAll(c *cache.Cache, when string, checkUnrelated bool) {
 		if p.Companion && i == (p.Target.ID+1)%nIDs {
 			continue // legitimately overwritten by the companion writer
 		}
-		if e.twoFaults && e.before[i] >= 0 && e.outIDs[e.before[i]] == targetOut {
-			// The statement quantifies over single faults. With two at once - the Put could not inspect the output
-			// file that is already there, and its source changed under it - the file it has to rewrite is the one
-			// this entry shares with it; such an entry is not unrelated to that Put. (Everything else is asserted.)
-			continue
-		}
 		if checkUnrelated && i != p.Target.ID && e.before[i] >= 0 && e.readable[i] {
 			if err != nil || !bytes.Equal(data, e.contents[e.before[i]]) {
 				same := ""
@@ -198,7 +196,6 @@ type attempt struct {
 	opFault *simos.Fault
 	reader  *cachekit.ChunkReader
 	label   string
-	two     bool                        // two faults at once: a file-operation fault and a source that changed
 	proc    int                         // >0: run in this (existing) simulated process instead of a fresh one
 	remake  func() *cachekit.ChunkReader // a fresh source reader with the same fault, for repeating the attempt
 }
@@ -335,6 +332,13 @@ func (e *env) reader(spec *FaultSpec, m int) *cachekit.ChunkReader {
 		r.EOFWithData = true
 	}
 	return r
+}
+
+// wallSeconds reads the real clock (time.Now is the simulated one inside a bubble).
+func wallSeconds() int64 {
+	var tv syscall.Timeval
+	syscall.Gettimeofday(&tv)
+	return tv.Sec
 }
 
 func run(t *testing.T, plan any, keep bool) *simcheck.Outcome {
@@ -474,7 +478,6 @@ func run(t *testing.T, plan any, keep bool) *simcheck.Outcome {
 			sp := FaultSpec{Kind: "reader", RKind: "grown", Off: off}
 			a.reader = e.reader(&sp, m)
 			a.label += " with a source that changed and grew"
-			a.two = true
 			return a
 		}
 		if p.All {
@@ -505,7 +508,10 @@ func run(t *testing.T, plan any, keep bool) *simcheck.Outcome {
 			}
 		} else if p.Fault.Kind == "op" {
 			a := mkOp(p.Fault.K, p.Fault.Action, p.Fault.Errno, p.Fault.Frac)
-			if p.Fault.Grown && p.Via == "reader" {
+			// (a changed source is combined with halts only: the process dying while it copies a file that changed
+			// is one story; a changed source plus an unrelated I/O error are two independent failures, and the
+			// statement quantifies over single ones)
+			if p.Fault.Grown && p.Via == "reader" && (p.Fault.Action == "halt-before" || p.Fault.Action == "halt-after") {
 				a = grown(a, p.Fault.Off)
 			}
 			atts = append(atts, a)
@@ -513,7 +519,15 @@ func run(t *testing.T, plan any, keep bool) *simcheck.Outcome {
 			atts = append(atts, attempt{reader: e.reader(&p.Fault, m), label: fmt.Sprintf("reader %s pass %d", p.Fault.RKind, p.Fault.Pass), remake: func() *cachekit.ChunkReader { return e.reader(&p.Fault, m) }})
 		}
 
-		for _, a := range atts {
+		wall0 := wallSeconds()
+		for ai, a := range atts {
+			if p.All && ai > 0 && wallSeconds()-wall0 > 120 {
+				// (a real-time guard, outside the simulation: a long enumeration on a loaded machine is cut, counted
+				// and never mistaken for coverage; violations found before the cut replay as usual)
+				out.Count("enumerations_cut_short_after_120s_wall", 1)
+				out.Count("enumeration_attempts_not_run", int64(len(atts)-ai))
+				break
+			}
 			rewind()
 			faultPoints++
 			perr, halted, finished := e.runPut(a)
@@ -556,6 +570,44 @@ func run(t *testing.T, plan any, keep bool) *simcheck.Outcome {
 				}
 				out.Count("failed_puts_repeated_in_one_process", 1)
 			}
+			// One long-lived handle: the failing Put again, then the same content stored successfully under
+			// another id, then a Put of other content that fails. The entry stored in between is unrelated to
+			// either failure and must stay readable.
+			restore := func() {}
+			if perr != nil && !halted && !p.Companion && !p.Reader && a.remake != nil && len(e.contents) > 1 {
+				yi := (p.Target.Content + 1) % len(e.contents)
+				if e.outIDs[yi] != e.outIDs[p.Target.Content] && len(e.contents[yi]) > 0 {
+					id2 := (p.Target.ID + 1) % nIDs
+					done := false
+					var err2, err3 error
+					err2 = fmt.Errorf("not run")
+					e.s.Go("longlived", e.lastProc, func() {
+						defer func() { done = true }()
+						c, oerr := cache.Open(dir)
+						if oerr != nil {
+							return
+						}
+						if p.NoVerify {
+							c.PutNoVerify(cachekit.ActionID(p.Target.ID), a.remake())
+						} else {
+							c.Put(cachekit.ActionID(p.Target.ID), a.remake())
+						}
+						err2 = c.PutBytes(cachekit.ActionID(id2), tdata)
+						y := e.contents[yi]
+						_, _, err3 = c.Put(cachekit.ActionID(p.Target.ID), &cachekit.ChunkReader{Data: y, Chunk: max(e.p.Chunk, len(y)/8), FlipAtPass: 2, FlipOnward: true, FlipOff: len(y) / 2})
+					})
+					simrt.Block("join", func() bool { return done })
+					if err2 == nil {
+						b0, r0 := e.before[id2], e.readable[id2]
+						e.before[id2], e.readable[id2] = p.Target.Content, true
+						restore = func() { e.before[id2], e.readable[id2] = b0, r0 }
+						out.Count("fail_store_fail_sequences_on_one_handle", 1)
+						if err3 != nil {
+							out.Count("fail_store_fail_second_failure_fired", 1)
+						}
+					}
+				}
+			}
 			// "restart": a fresh handle on the directory, in the surviving process
 			c2, err := cache.Open(dir)
 			if err != nil {
@@ -563,9 +615,8 @@ func run(t *testing.T, plan any, keep bool) *simcheck.Outcome {
 				return
 			}
 			when := "after " + a.label
-			e.twoFaults = a.two
 			e.verifyAll(c2, when, true)
-			e.twoFaults = false
+			restore()
 			if finished && perr == nil && p.PreDamage == "" && a.opFault != nil {
 				// acknowledged: must read back exactly
 				if data, _, err := c2.GetBytes(cachekit.ActionID(p.Target.ID)); err != nil || !bytes.Equal(data, tdata) {
@@ -622,10 +673,10 @@ func run(t *testing.T, plan any, keep bool) *simcheck.Outcome {
 var harness = &simcheck.Harness{
 	Property: "C12",
 	Level:    "fault_enumeration",
-	Rule: "a scenario shape (0-3 prior Puts, 0 hours to 400 days of simulated time between them and the target Put, target id/content, optional pre-damage of the target's output file (same size / shorter / longer / shorter with wrong bytes) or an output that was trimmed away while index entries still name it, PutBytes, Put or PutNoVerify of a chunking ReadSeeker with Len, optionally a healthy companion process storing the same content) is drawn by rapid; a fault-free dry run " +
+	Rule: "a scenario shape (contents of 0 bytes to 1.1 MB, 0-3 prior Puts, 0 hours to 400 days of simulated time between them and the target Put, target id/content, optional pre-damage of the target's output file (same size / shorter / longer / shorter with wrong bytes) or an output that was trimmed away while index entries still name it, PutBytes, Put or PutNoVerify of a chunking ReadSeeker with Len, optionally a healthy companion process storing the same content) is drawn by rapid; a fault-free dry run " +
 		"counts the N file operations and M reader calls of the target Put; then one fault is injected (operation k fails / writes short and fails / process halts before / after / in the middle of it; " +
-		"or the reader fails to seek, fails mid-read, ends early, flips a byte in one pass or from one pass onward, grows in one pass, returns data with EOF; or a file-operation fault meets a source that changed and grew between the passes), or - thorough, a tenth of the shapes - the whole " +
-		"(operation x action), (halt x changed-and-grown source) and reader fault space of the shape is executed to completion; every attempt starts from the same rewound disk state; thorough adds a concurrent reader process; " +
+		"or the reader fails to seek, fails mid-read, ends early, flips a byte in one pass or from one pass onward, grows in one pass, returns data with EOF; or the process halts before / after an operation while the source has changed and grown between the passes); after a failed reader Put the same handle fails again, stores the content under another id, and fails a Put of other content, or - thorough, a tenth of the shapes - the whole " +
+		"(operation x action), (halt x changed-and-grown source) and reader fault space (cut after 120 s of real time) of the shape is executed to completion; every attempt starts from the same rewound disk state; thorough adds a concurrent reader process; " +
 		"non-trivial = the fault fired; distinct by decision-trace hash",
 	Gen:     genPlan,
 	NewPlan: func() any { return &Plan{} },
